@@ -16,13 +16,23 @@ def fr(x):
     return "%d/%d" % (f.numerator, f.denominator)
 
 
+SCALE = [1.0]
+
+
+def frc(x):
+    """a coordinate, scaled back by the case's power-of-two factor (exact)"""
+    return fr(float(x) / SCALE[0])
+
+
 def build(case):
     import mouette as M
+    SCALE[0] = 2.0 ** case.get("scale_exp", 0)
     # sorted neighbourhoods are the library default and the setting of the property; "sort": false is used only to
     # replay the for-the-record witness of C15_cycle_unsorted_refuted
     M.config.sort_neighborhoods = bool(case.get("sort", True))
     d = M.mesh.RawMeshData()
-    d.vertices += [M.Vec(float(p[0]), float(p[1]), float(p[2])) for p in case["coords"]]
+    sc = 2.0 ** case.get("scale_exp", 0)
+    d.vertices += [M.Vec(float(p[0]) * sc, float(p[1]) * sc, float(p[2]) * sc) for p in case["coords"]]
     if case.get("hard"):
         d.edges += [tuple(e) for e in case["hard"]]
     d.faces += [list(F) for F in case["faces"]]
@@ -50,16 +60,36 @@ def tables(m):
          "e2f": [[oint(x) for x in cn.edge_to_faces(*m.edges[e])] for e in range(len(m.edges))],
          "v2e": [[oint(e) for e in cn.vertex_to_edges(v)] for v in range(nv)],
          "nf": len(m.faces),
-         "coords": [[fr(c) for c in m.vertices[v]] for v in range(nv)],
+         "coords": [[frc(c) for c in m.vertices[v]] for v in range(nv)],
          "hard": ([int(e) for e in m.edges.get_attribute("hard_edges")]
                   if m.edges.has_attribute("hard_edges") else None)}
     return t
 
 
-def run_cycle(m, s):
+def call_cycle(m, s, form):
+    """every way a caller may pass the start: omitted, None, keyword, python int, numpy integers"""
+    import numpy as np
     from mouette.processing import border as B
+    if s is None:
+        if form == "none":
+            return B.extract_border_cycle(m, None)
+        if form == "none_kw":
+            return B.extract_border_cycle(m, starting_point=None)
+        return B.extract_border_cycle(m)
+    if form == "kw":
+        return B.extract_border_cycle(m, starting_point=s)
+    if form == "np64":
+        return B.extract_border_cycle(m, np.int64(s))
+    if form == "np32":
+        return B.extract_border_cycle(m, np.int32(s))
+    if form == "npu16":
+        return B.extract_border_cycle(m, np.uint16(s))
+    return B.extract_border_cycle(m, s)
+
+
+def run_cycle(m, s, form="int"):
     try:
-        r = B.extract_border_cycle(m) if s is None else B.extract_border_cycle(m, s)
+        r = call_cycle(m, s, form)
     except Exception as ex:
         return ["exc", type(ex).__name__, str(ex)[:80]]
     if isinstance(r, list) and len(r) == 0:
@@ -72,6 +102,12 @@ def run_cycle(m, s):
 def run_all(m):
     from mouette.processing import border as B
     try:
+        first = B.extract_border_cycle_all(m)
+        # the first answer is wrecked in place, the call repeated: the second answer is the one reported
+        for c in first:
+            c.reverse()
+            c.append(-7)
+        first.clear()
         r = B.extract_border_cycle_all(m)
         return ["ok", [[int(v) for v in c] for c in r]]
     except Exception as ex:
@@ -82,6 +118,16 @@ def run_boundary(m):
     from mouette.processing import border as B
     import mouette as M
     try:
+        first = B.extract_boundary_of_surface(m)
+        # wreck the first answer in place (map, edges, coordinates), repeat the call, report the second answer
+        if isinstance(first, tuple) and len(first) == 2 and isinstance(first[1], dict):
+            for k in list(first[1]):
+                first[1][k] = -1
+            first[1][-5] = 0
+            for p in first[0].vertices:
+                p += 1000.
+            for i in range(len(first[0].edges)):
+                first[0].edges[i] = (0, 0)
         r = B.extract_boundary_of_surface(m)
     except Exception as ex:
         return ["exc", type(ex).__name__, str(ex)[:80]]
@@ -96,7 +142,7 @@ def run_boundary(m):
         seen = [int(a[i]) for i in range(len(pl.vertices))]
     else:
         seen = None
-    return ["ok", {"verts": [[fr(c) for c in p] for p in pl.vertices],
+    return ["ok", {"verts": [[frc(c) for c in p] for p in pl.vertices],
                    "edges": [[int(a), int(b)] for a, b in pl.edges],
                    "map": [[int(k), int(v)] for k, v in mp.items()],
                    "comp_keys": comp, "comp_at": seen}]
@@ -136,31 +182,78 @@ def observe(det, m, opt, ang):
         g = det._feature_graph
         try:
             out["graph"] = {"nv": len(g.vertices), "edges": sorted(sorted([int(a), int(b)]) for a, b in g.edges),
-                            "verts": [[fr(c) for c in p] for p in g.vertices],
+                            "verts": [[frc(c) for c in p] for p in g.vertices],
                             "deg": [int(g.vertices.get_attribute("degree")[i]) for i in range(len(g.vertices))]}
         except Exception as ex:
             out["graph"] = {"exc": repr(ex)[:80]}
     return out
 
 
+def typed(opt):
+    """the option values as python bool/int, numpy scalars, or the ints 0/1 for the flags"""
+    import numpy as np
+    t = opt.get("types", "py")
+    ob, fc, co, g = opt["only_border"], opt["flag_corners"], opt["corner_order"], opt["graph"]
+    if t == "np":
+        return np.bool_(ob), np.bool_(fc), np.int64(co), np.bool_(g)
+    if t == "int01":
+        return int(ob), int(fc), co, int(g)
+    return ob, fc, co, g
+
+
 def make_det(opt):
     from mouette.processing.features import FeatureEdgeDetector
-    return FeatureEdgeDetector(only_border=opt["only_border"], flag_corners=opt["flag_corners"],
-                               corner_order=opt["corner_order"], compute_feature_graph=opt["graph"], verbose=False)
+    form = opt.get("form", "kw")
+    if form == "defaults":
+        return FeatureEdgeDetector(verbose=False)        # every option omitted: the documented defaults
+    ob, fc, co, g = typed(opt)
+    if form == "pos":
+        return FeatureEdgeDetector(ob, fc, co, g, False)
+    return FeatureEdgeDetector(only_border=ob, flag_corners=fc, corner_order=co, compute_feature_graph=g, verbose=False)
+
+
+def attr_names(m):
+    return {"vertices": sorted(m.vertices.attributes), "edges": sorted(m.edges.attributes),
+            "faces": sorted(m.faces.attributes), "corners": sorted(m.face_corners.attributes)}
+
+
+def plant_junk(m):
+    """attributes with the detector's own names already on the mesh, holding arbitrary values"""
+    a = m.edges.create_attribute("feature", bool)
+    for e in range(0, len(m.edges), 2):
+        a[e] = True
+    b = m.vertices.create_attribute("feature", bool)
+    for v in range(len(m.vertices)):
+        b[v] = True
+    c = m.vertices.create_attribute("corners", int)
+    for v in range(len(m.vertices)):
+        c[v] = 99
+
+
+def do_run(det, m, opt):
+    if opt.get("call") == "detect":
+        return det.detect(m)
+    return det.run(m)
 
 
 def run_det(case, opt, ang):
     """A fresh mesh and a fresh detector per run; with opt["prior"] the mesh first goes through a run (of another
     detector object) with those options."""
     m = build(case)
+    if opt.get("junk"):
+        plant_junk(m)
     if opt.get("prior"):
         make_det(opt["prior"]).run(m)
+    before = attr_names(m)
     det = make_det(opt)
     try:
-        det.run(m)
+        do_run(det, m, opt)
     except Exception as ex:
         return {"exc": "%s: %s" % (type(ex).__name__, str(ex)[:80])}
-    return observe(det, m, opt, ang)
+    out = observe(det, m, opt, ang)
+    after = attr_names(m)
+    out["new_attrs"] = {k: sorted(set(after[k]) - set(before[k])) for k in after}
+    return out
 
 
 def run_session(case, ang):
@@ -169,8 +262,9 @@ def run_session(case, ang):
     ses = case.get("session")
     if not ses:
         return None
-    meshes = [build(case), build(ses["other"]) if ses.get("other") else None]
-    angs = [ang, angle_sums(ses["other"]) if ses.get("other") else None]
+    other = dict(ses["other"], scale_exp=case.get("scale_exp", 0)) if ses.get("other") else None   # one scale per case
+    meshes = [build(case), build(other) if other else None]
+    angs = [ang, angle_sums(other) if other else None]
     out = {"other_tables": tables(meshes[1]) if meshes[1] is not None else None, "steps": []}
     det = None
     for st in ses["steps"]:
@@ -182,7 +276,7 @@ def run_session(case, ang):
                 det.flag_corners = st["flag_corners"]
                 det.corner_order = st["corner_order"]
                 det.compute_feature_graph = st["graph"]
-            det.run(meshes[st["on"]])
+            do_run(det, meshes[st["on"]], st)
             out["steps"].append(observe(det, meshes[st["on"]], st, angs[st["on"]]))
         except Exception as ex:
             out["steps"].append({"exc": "%s: %s" % (type(ex).__name__, str(ex)[:80])})
@@ -192,7 +286,21 @@ def run_session(case, ang):
 def run_case(case):
     m = build(case)
     res = {"tables": tables(m)}
-    res["cycles"] = [[s, run_cycle(m, s)] for s in [None] + list(case["starts"])]
+    forms = case.get("start_forms") or ["omit"] + ["int"] * len(case["starts"])
+    res["cycles"] = []
+    for k, (s, f) in enumerate(zip([None] + list(case["starts"]), forms)):
+        r = run_cycle(m, s, f)
+        res["cycles"].append([s, r])
+        if k < 4 and r[0] == "ok":
+            # wreck the returned lists in place and ask again: the answer must be rebuilt, not shared
+            try:
+                raw = call_cycle(m, s, f)
+                raw[0].reverse()
+                raw[0].append(-7)
+                raw[1].clear()
+            except Exception:
+                pass
+            res["cycles"].append([s, run_cycle(m, s, f)])
     res["all"] = run_all(m)
     res["boundary"] = run_boundary(m)
     ang = angle_sums(case) if (case["dets"] or case.get("session")) else None
